@@ -9,7 +9,7 @@ import Verif.Model.SCEP
   `facts`                                   → the message-type sets of `Verif.SCEP.asCoded`, rendered exactly
                                               like the harness's source extractor renders what it finds
   `pki meth=get|post|head|other path=root|name|rest lookup=scep|other|missing|badesc qok= op=pki|cacert|cacaps|none|other
-       ppair=<cert><key> ddec=<cert><key> dsig=<cert><key> inter=<n> roots=<n> exint= incroot= caps=x<hex>,…|-
+       ppair=<cert><key> ddec=<cert><key> dsig=<cert><key> inter=<n> roots=<n> exint= incroot= caps=x<hex>,…|- enc= minlen= conv=<conversions through the admin database>
        http= p7= tid= mt=x<hex>|! sn=ok|empty|none st=x<hex>|! rn= fi= inner= decp= decd=
        env=csr|badsig|nocsr|cperr cp=x<hex> degen=<n>|! cn=x<hex> sans=<d|e|i|u>:x<hex>,…|- cnk=<d|e|i|u> forcecn= signok= certs=<r|n per certificate>|- signer=<pos>|!
        secret=x<hex> hooks=<kind>:<ct>:<a|d|e>,…|- inits=<times Init ran on the provisioner object, ≥ 1>`
@@ -53,10 +53,11 @@ def hook? (t : String) : Option Hook :=
   match t.splitOn ":" with
   | [k, ct, r] => do
     let k ← match k with
-      | "scep" => some HookKind.scep | "notify" => some .notify | "enrich" => some .other | "bogus" => some .other
+      | "scep" => some HookKind.scep | "notify" => some .notify | "enrich" => some .other | "bogus" => some .unknown
       | _ => none
     let ct ← match ct with
-      | "x509" => some CertType.x509 | "ssh" => some .ssh | "all" => some .all | "none" => some .unset | _ => none
+      | "x509" => some CertType.x509 | "ssh" => some .ssh | "all" => some .all | "none" => some .unset
+      | "bad" => some .unknown | _ => none
     let (f, s2) ← attempts? r
     pure ⟨k, ct, f, s2⟩
   | _ => none
@@ -154,8 +155,8 @@ def certs? (t : String) : Option (List Bool) :=
   if t = "-" then some [] else t.toList.mapM fun c => if c = 'r' then some true else if c = 'n' then some false else none
 
 def hookS (h : Hook) : String :=
-  let k := match h.kind with | .scep => "scep" | .notify => "notify" | .other => "other"
-  let ct := match h.ct with | .x509 => "x509" | .ssh => "ssh" | .all => "all" | .unset => "none"
+  let k := match h.kind with | .scep => "scep" | .notify => "notify" | .other => "other" | .unknown => "other"
+  let ct := match h.ct with | .x509 => "x509" | .ssh => "ssh" | .all => "all" | .unset => "none" | .unknown => "?"
   s!"{k}:{ct}"
 
 def hooksS (l : List Hook) : String :=
@@ -227,18 +228,28 @@ def eval (line : String) : Option String := do
       signOk := (← bool? (← lookup kv "signok")) && iss.isSome
       certs := ← certs? (← lookup kv "certs")
       signer := ← degen? (← lookup kv "signer") }
-    let c : Config := { secret := ← str? (← lookup kv "secret"), hooks := ← hooks? (← lookup kv "hooks") }
+    let c0 : Config := { secret := ← str? (← lookup kv "secret"), hooks := ← hooks? (← lookup kv "hooks") }
     let inits ← (← lookup kv "inits").toNat?
+    let pp ← pair? (← lookup kv "ppair")
+    -- the configuration as written, then as it is in force: `conv` conversions through the admin database
+    let pcfg0 : ProvCfg := {
+      cfg := c0, forceCN := ← bool? (← lookup kv "forcecn"), caps := ← strList? (← lookup kv "caps"),
+      includeRoot := ← bool? (← lookup kv "incroot"), excludeIntermediate := ← bool? (← lookup kv "exint"),
+      minKeyLen := ← (← lookup kv "minlen").toNat?, encAlg := ← (← lookup kv "enc").toNat?,
+      decCert := pp.cert, decKey := pp.key }
+    let pcfg := roundTrips (← (← lookup kv "conv").toNat?) pcfg0
+    let c := pcfg.cfg
     let h : HttpReq := {
       meth := ← meth? (← lookup kv "meth")
       path := ← path? (← lookup kv "path")
-      lookup := ← lookup? (← lookup kv "lookup")
+      -- a name that resolves to this configuration finds a SCEP provisioner only if `Init` accepted it
+      lookup := lookupOf (← lookup? (← lookup kv "lookup")) pcfg
       queryOk := ← bool? (← lookup kv "qok")
       op := ← op? (← lookup kv "op")
       decProv := ← bool? (← lookup kv "decp")
       decDflt := ← bool? (← lookup kv "decd") }
     let S : Server := {
-      provPair := ← pair? (← lookup kv "ppair")
+      provPair := pp
       dfltDecrypter := ← pair? (← lookup kv "ddec")
       dfltSigner := ← pair? (← lookup kv "dsig")
       nInter := ← (← lookup kv "inter").toNat?
